@@ -48,34 +48,37 @@ theorem C02_put_complete (c c' : Cell) (aid : Nat) (a : App) (placed : Bool)
 /-- **C02 (one partition queue).**  From the state in which `_find_placements` is called: a pending
     instance `p` (not blacklisted, not over its cap, no identity group, never evicted) for which some
     up server passes the `Server.put` checks is placed by the call, provided the instances ahead of it
-    in the queue are quiescent (none of them ends on a server it was not on before the call) and none
-    of them has the probe's placement shape (feasibility-tracker key).  The state at the probe's turn
-    then offers at least the room of the start state (`fits_mono`), the tracker holds no record of its
-    shape, and `Cell.put` is complete. -/
+    in the queue are quiescent (none of them ends on a server it was not on before the call) and
+    belong to allocations of the probe's partition (the queue is one partition's).  The state at the
+    probe's turn then offers at least the room of the start state (`fits_mono`), every record of the
+    feasibility tracker is sound (`TrackerOk`: a record `(shape, demand)` is only written after
+    `Cell.put` failed for an instance of that shape and demand, and `Cell.put` is complete, so nothing
+    of that shape asking at least as much fits anywhere), and `Cell.put` is complete. -/
 theorem C02_queue {c0 c' : Cell} {p : Nat} {ap : App} {queue : List (Nat × Bool)} {ch ch' : List Nat}
     (h0 : AffAll c0) (hagg : AggOk c0) (hcur : CurOk c0.tree) (hh : ProbeHyp c0 p ap)
     (hnd : (queue.map (·.1)).Nodup) (hp : (p, false) ∈ queue)
-    (hnotwin : ∀ y, AheadOf p (queue.map (·.1)) y → ∀ ay, c0.app? y = some ay → c0.tkey ay ≠ c0.tkey ap)
+    (hlbl : ∀ y, AheadOf p (queue.map (·.1)) y → ∀ ay, c0.app? y = some ay →
+      (c0.allocInfo ay.alloc).label = (c0.allocInfo ap.alloc).label)
     (h : findPlacements c0 queue ch = .ok (c', ch'))
     (hquiet : ∀ y, AheadOf p (queue.map (·.1)) y → ¬ MovedTo c0 c' y) :
     ∃ a' sid', c'.app? p = some a' ∧ a'.server = some sid' :=
-  findPlacements_probe h0 hagg hcur hh hnd hp hnotwin h hquiet
+  findPlacements_probe h0 hagg hcur hh hnd hp hlbl h hquiet
 
 /-- **C02 (whole cycle, the probe's partition scheduled first).**  In a state satisfying the
     invariants (every reachable state: `C02_aggregates`), a new pending instance for which some up
     server of its partition has the required traits and lifetime, room in every dimension and affinity
     head-room at every level is placed by the next `Cell.schedule`, provided the instances ahead of it in
-    its partition's queue are quiescent in that cycle and none of them shares its placement shape.
-    *Partial* with respect to the property's statement in three ways, each decided by the
-    correspondence run and the probe/oracle monitor instead: instances with an identity group; a
-    pending instance of the same shape ahead of the probe (soundness of the feasibility tracker's
-    demand comparison); partitions scheduled before the probe's. -/
+    its partition's queue are quiescent in that cycle and belong to allocations of its partition.
+    *Partial* with respect to the property's statement in two ways, each decided by the
+    correspondence run and the probe/oracle monitor instead: instances with an identity group;
+    partitions scheduled before the probe's. -/
 theorem C02_cycle_partial (c c' : Cell) (q : List (Nat × Bool)) (qb : List (List (Nat × Bool))) (ch : List Nat)
     (p : Nat) (ap : App)
     (h0 : AffAll c) (hagg : AggOk c) (hcur : CurOk c.tree) (hh : ProbeHyp c p ap)
     (hnd : (q.map (·.1)).Nodup) (hp : (p, false) ∈ q)
     (hdisj : ∀ q' ∈ qb, ∀ y ∈ q.map (·.1), y ∉ q'.map (·.1))
-    (hnotwin : ∀ y, AheadOf p (q.map (·.1)) y → ∀ ay, c.app? y = some ay → c.tkey ay ≠ c.tkey ap)
+    (hlbl : ∀ y, AheadOf p (q.map (·.1)) y → ∀ ay, c.app? y = some ay →
+      (c.allocInfo ay.alloc).label = (c.allocInfo ap.alloc).label)
     (h : schedule c (q :: qb) ch = .ok c')
     (hquiet : ∀ cpre, prePasses c = .ok cpre → ∀ y, AheadOf p (q.map (·.1)) y → ¬ MovedTo cpre c' y) :
     ∃ a' sid', c'.app? p = some a' ∧ a'.server = some sid' := by
@@ -122,8 +125,10 @@ theorem C02_cycle_partial (c c' : Cell) (q : List (Nat × Bool)) (qb : List (Lis
     (by
       intro y hy ay hay
       obtain ⟨b0, hb0, est⟩ := app?_stat_of hstat1 hay
-      rw [tkey_static hstat1 est, tkey_static (a := ap) (a0 := ap) hstat1 rfl]
-      exact hnotwin y hy b0 hb0)
+      have ea : ay.alloc = b0.alloc := congrArg AppStat.alloc est
+      have := hlbl y hy b0 hb0
+      unfold Cell.allocInfo at this ⊢
+      rw [hstat1.allocs, ea]; exact this)
     hfq
     (by
       intro y hy hm
